@@ -376,6 +376,7 @@ class Ctx:
         if is_sym(a) or is_sym(b):
             if self.symbolic and not isinstance(a, SBool) and not isinstance(b, SBool):
                 # equal rational functions are recognised syntactically (canonical form; divisors recorded)
+                saved = dict(self.path.divisors)
                 try:
                     ca, cb = SCplx.of(a), SCplx.of(b)
                     if ca is not None and cb is not None:
@@ -385,6 +386,9 @@ class Ctx:
                             return True
                 except Exception:
                     pass
+                # the shortcut was not used: do not keep the divisors it looked at
+                self.path.divisors.clear()
+                self.path.divisors.update(saved)
             r = (a == b)
             if r is NotImplemented:
                 return False
@@ -948,7 +952,8 @@ def verify_contract(cdef, tier='quick', seed=0):
                 except Exception:
                     pass
             if res == 'unsat':
-                facts.append(cond)
+                if not os.environ.get('PYVC_NOFACTS'):
+                    facts.append(cond)
                 continue
             if res == 'unknown':
                 if o['status'] == 'discharged':
